@@ -4,6 +4,7 @@ package loadaware
 
 import (
 	"fmt"
+	"strings"
 	"testing"
 	"time"
 
@@ -21,10 +22,57 @@ func (m *c08Model) stepClock(r *kit.Rand) {
 // podEvent issues one in-domain event for pod p, chosen by the pod's state, and returns its kind.
 func (m *c08Model) podEvent(c *kit.Case, r *kit.Rand, tag string, p *c08Pod) string {
 	now := m.env.clk.Now()
-	update := func(kinds []string, weights []int) string {
-		k := kinds[r.Weighted(weights...)]
-		m.evUpdate(c, tag, k, p, m.mutate(r, p, k, now))
-		return "update-" + k
+	// update issues ONE informer update that applies all the given aspects and returns its kind:
+	// "update-<aspect>" when one thing changed, "update-combined[-terminate]" when several did.
+	update := func(aspects []string) string {
+		wasTerminated := c08Terminated(p.inf)
+		nv, changed := m.mutate(r, p, aspects, now)
+		m.evUpdate(c, tag, strings.Join(aspects, "+"), p, nv)
+		for _, a := range aspects {
+			c.Count("upd_aspect_"+a, 1)
+		}
+		term := !wasTerminated && c08Terminated(nv)
+		if term {
+			c.Count("updates_terminate", 1)
+			for _, ch := range changed {
+				switch ch {
+				case "conditions":
+					c.Count("updates_terminate_with_condition_change", 1)
+				case "resources", "priority":
+					c.Count("updates_terminate_with_spec_change", 1)
+				}
+			}
+		}
+		switch {
+		case len(changed) >= 2:
+			c.Count("updates_combined", 1)
+			if term {
+				return "update-combined-terminate"
+			}
+			return "update-combined"
+		case len(changed) == 1:
+			return "update-" + changed[0]
+		}
+		return "update-nothing-changed"
+	}
+	// subset draws a random non-empty subset of the aspects (each with its own percentage).
+	subset := func(aspects []string, pct []int) []string {
+		var out []string
+		for i, a := range aspects {
+			if r.Pct(pct[i]) {
+				out = append(out, a)
+			}
+		}
+		if len(out) == 0 {
+			out = append(out, kit.Pick(r, aspects))
+		}
+		return out
+	}
+	pendingUpdate := func() string {
+		if r.Pct(15) {
+			return update([]string{"noop"})
+		}
+		return update(subset([]string{"resources", "priority", "cond-sched"}, []int{45, 40, 25}))
 	}
 	switch p.state() {
 	case "absent":
@@ -60,7 +108,7 @@ func (m *c08Model) podEvent(c *kit.Case, r *kit.Rand, tag string, p *c08Pod) str
 			m.evReserve(c, tag, p, kit.Pick(r, m.nodes))
 			return "reserve"
 		case 1:
-			return update([]string{"resources", "priority", "cond-sched", "noop"}, []int{35, 30, 15, 20})
+			return pendingUpdate()
 		}
 		m.evDelete(c, tag, p, p.inf, r.Pct(20))
 		return "delete-pending"
@@ -79,7 +127,7 @@ func (m *c08Model) podEvent(c *kit.Case, r *kit.Rand, tag string, p *c08Pod) str
 			return "unreserve"
 		case 2:
 			// informer still shows the pod unbound (stale w.r.t. the scheduler's own action)
-			return update([]string{"resources", "priority", "cond-sched", "noop"}, []int{35, 30, 15, 20}) + "-while-reserved"
+			return pendingUpdate() + "-while-reserved"
 		}
 		m.evDelete(c, tag, p, p.inf, r.Pct(20))
 		return "delete-while-reserved"
@@ -91,15 +139,32 @@ func (m *c08Model) podEvent(c *kit.Case, r *kit.Rand, tag string, p *c08Pod) str
 			m.evDelete(c, tag, p, p.inf, r.Pct(20))
 			return "delete-bound"
 		}
-		kinds := []string{"resources", "priority", "cond-init", "cond-sched", "cond-ready", "phase-running", "noop", "terminate", "node-change"}
-		weights := []int{22, 18, 14, 10, 5, 6, 7, 8, 10}
-		if len(m.nodes) < 2 {
-			weights[8] = 0
+		switch r.Weighted(8, 8, 5, 79) {
+		case 0:
+			// what a kubelet writes when the pod's containers have finished: phase and conditions in ONE status update
+			asp := []string{"kubelet-complete"}
+			if r.Pct(15) {
+				asp = append(asp, "labels")
+			}
+			return update(asp)
+		case 1:
+			if len(m.nodes) >= 2 {
+				asp := []string{"node-change"}
+				if r.Pct(35) {
+					asp = append(asp, subset([]string{"resources", "priority", "cond-sched", "cond-init", "labels"}, []int{30, 30, 30, 20, 20})...)
+				}
+				return update(asp)
+			}
+			fallthrough
+		case 2:
+			return update([]string{"noop"})
 		}
-		return update(kinds, weights)
+		asp := subset([]string{"resources", "priority", "cond-init", "cond-sched", "cond-ready", "phase-running", "terminate", "labels"}, []int{28, 24, 18, 14, 12, 12, 6, 12})
+		return update(asp)
 	case "terminated":
-		if r.Pct(30) {
-			return update([]string{"noop", "cond-ready"}, []int{60, 40}) + "-terminated"
+		// a finished pod stays around for a while (until its owner or the GC deletes it): reports keep coming
+		if r.Pct(55) {
+			return update(subset([]string{"noop", "cond-ready", "resources", "priority"}, []int{40, 35, 15, 15})) + "-terminated"
 		}
 		m.evDelete(c, tag, p, p.inf, r.Pct(20))
 		return "delete-terminated"
@@ -120,6 +185,20 @@ func (m *c08Model) metricEvent(c *kit.Case, r *kit.Rand, tag string, node string
 	}
 	m.mver[node]++
 	nm := c08GenMetric(r, m.env, node, m.mver[node], m.env.clk.Now(), m.hints(node, withState), c08MetricOpt{})
+	if withState && nm.Status.NodeMetric != nil {
+		// finished pods whose object still exists: the following reports list them or (koordlet has
+		// dropped the pod) do not list them any more
+		for _, p := range m.pods {
+			if p.inf == nil || !c08Terminated(p.inf) || p.inf.Spec.NodeName != node {
+				continue
+			}
+			if u, _ := c08ReportedPodUsage(m.env, nm, p.ns, p.name); u == nil {
+				c.Count("terminated_pods_followed_by_report_without_them", 1)
+			} else {
+				c.Count("terminated_pods_followed_by_report_with_them", 1)
+			}
+		}
+	}
 	had := m.metrics[node] != nil
 	m.evMetric(c, tag, node, nm)
 	kind := "metric-update"
